@@ -8,7 +8,7 @@ implementation: emmet.abbreviation.parse (tokenize + parse + convert, attributes
 exactly the node(s) the SPEC gives.  The same texts go through the extracted model (coq/run/TextRun.v,
 `parse_abbr`), which the theorems speak about.  Nothing here imports parser/convert code of the implementation.
 
-Element  := name part* text? '/'?  part := '#'+ word | '.'+ word | '[' attr (' ' attr)* ']'      text := '{' e '}'
+Element  := name part* text? '/'?  part := '#'+ word | '.'+ word | '[' ws* attr (ws+ attr)* ws* ']'      text := '{' e '}'
 attr     := '!'? aname '.'? value  value := '' | '=' | '='unq | "='" q "'" | '="' q '"' | '={' e '}'
 """
 import json
@@ -152,9 +152,27 @@ def rand_elem(rng, jsx=False, nparts=None):
         elif k < 0.55:
             parts.append(('class', rword(rng, NAME_CH if wide else LETTERS + DIGITS + '-_', 1, 4), dup))
         else:
-            parts.append(('set', [rand_attr(rng) for _ in range(rng.choice([0, 1, 1, 2, 3, 5]))]))
+            attrs = [rand_attr(rng) for _ in range(rng.choice([0, 1, 1, 2, 3, 5]))]
+            parts.append(('set', attrs, rand_seps(rng, len(attrs))))
     text = rand_braced(rng) if rng.random() < 0.35 else None          # (written, value)
     return {'name': name, 'parts': parts, 'text': text, 'close': rng.random() < 0.2}
+
+
+def rand_seps(rng, n):
+    """White space written after `[` and after each of the n attributes: any run of blanks, tabs, nbsp, line breaks;
+    at least one character between two attributes.  None = the usual single spaces."""
+    if rng.random() < 0.6:
+        return None
+
+    def ws(lo):
+        return ''.join(rng.choice(' \t \xa0  \n\r') for _ in range(rng.choice([lo, 1, 1, 2, 3])))
+    return [ws(0)] + [ws(1) if k + 1 < n else ws(0) for k in range(n)]
+
+
+def set_text(x, seps):
+    if seps is None:
+        return '[' + ' '.join(a['text'] for a in x) + ']'
+    return '[' + seps[0] + ''.join(a['text'] + w for a, w in zip(x, seps[1:])) + ']'
 
 
 def rand_text_elem(rng, jsx=False):
@@ -164,7 +182,7 @@ def rand_text_elem(rng, jsx=False):
     for part in e['parts']:
         kind, x = part[0], part[1]
         if kind == 'set':
-            part = (kind, [a for a in x if not a['implied'] and not a['boolean'] and a['name']])
+            part = (kind, [a for a in x if not a['implied'] and not a['boolean'] and a['name']], None)
         parts.append(part)
     e['parts'] = parts
     e['text'] = rand_braced(rng)
@@ -181,7 +199,7 @@ def elem_text(e):
         elif kind == 'class':
             out.append('.' * dup + x)
         else:
-            out.append('[' + ' '.join(a['text'] for a in x) + ']')
+            out.append(set_text(x, part[2] if len(part) > 2 else None))
     if e.get('text') is not None:
         out.append('{' + e['text'][0] + '}')
     if e.get('close'):
@@ -288,6 +306,9 @@ SEEDS = [
     lit('p', ('id', 'i'), text=(' [x] {y{z}} \\$ ', ' [x] {y{z}} $ ')),
     lit('x1', close=True),
     lit('x', ('class', 'm', 2), ('id', 'n', 3), ('class', 'k')),
+    lit('x', ('set', [attr('a', 'unq', '=1', '1', 0), attr('b', 'none', '', None, 0), attr('c', 'q2', '="d"', 'd', 2)],
+              ['\t ', '  ', '\xa0\n', ' '])),
+    lit('x', ('set', [], ['  '])),
     lit('x', ('class', 'a1'), ('set', [attr('b', 'none', '', None, 0, boolean=True)]), close=True),
     lit('x', ('id', 'i'), text=('t', 't'), close=True),
 ]
